@@ -35,6 +35,9 @@ RULE = ('random tier: two typed nullable tables (2-4 columns of int/double/strin
         'AND OR NOT, isNull / isNotNull, between, coalesce, when/otherwise, alias, lit; exhaustive tier: every binary and '
         'unary operator over all pairs from a 9-value domain per type (3-value for boolean) incl. null, 0, -0.0, negative and '
         'fractional values, for the type pairs int-int, int-double, double-int, double-double, string-string, bool-bool; '
+        'reuse sweep: the same Column / expression object in two steps around every kind of step that moves columns, and in both '
+        'operands of a union; union sweep: every order of the same names, overlapping and unrelated names on the right-hand '
+        'side of union / unionByName; about a third of all cases re-use Column objects (one per name, shared sub-expressions); '
         'sort-convention sweep: every wrapper (or none) per key x every form of `ascending` for one key, a sample (quick) / '
         'all (thorough) of the 49 wrapper pairs x 7 forms for two keys; dynamic tier (correspondence only): the modelled ill-typed behaviour of the class dispatch (bool as int, casts to '
         'bool in comparisons, truthiness of non-booleans, str + str); '
@@ -86,12 +89,19 @@ def _session():
 
 class Conv:
     """Which of the equivalent public calling conventions the harness uses at each choice point.
-    seed 0 = the canonical ones (F.col / F.lit / Column arguments / orderBy(*keys)); any other seed draws every
-    choice from random.Random(seed), so a case (which carries the seed) is replayed identically."""
+    seed 0 = the canonical ones (fresh F.col / F.lit objects, Column arguments, orderBy(*keys)); any other seed
+    draws every choice from random.Random(seed), so a case (which carries the seed) is replayed identically.
+    Seeds divisible by 3 additionally switch on OBJECT REUSE: one Column object per column name for the whole
+    case (both tables of a union included) and, with probability 0.7, the object built earlier for an identical
+    sub-expression -- the way user code keeps `c = col('b')` or `cond = c > 1` in a variable and uses it in
+    several steps.  Expressions are values: reuse must not change any result."""
 
     def __init__(self, seed):
         import random
         self.rnd = random.Random(seed) if seed else None
+        self.reuse = bool(seed) and seed % 3 == 0
+        self.cache = {}
+        self.reused = 0
 
     def coin(self, p=0.5):
         return self.rnd is not None and self.rnd.random() < p
@@ -101,8 +111,16 @@ class Conv:
 
 
 def _colref(name, cx, df):
-    """F.col('a') | df['a'] | df.a   (the last two are bound to the frame the operator is applied to)"""
+    """F.col('a') | df['a'] | df.a   (the last two are bound to the frame the operator is applied to);
+    in reuse mode: THE Column object of that name"""
     from pysparkling.sql import functions as F
+    if cx.reuse:
+        key = ('col', name)
+        if key not in cx.cache:
+            cx.cache[key] = F.col(name)
+        else:
+            cx.reused += 1
+        return cx.cache[key]
     k = cx.pick(3) if df is not None else 0
     if k == 1:
         return df[name]
@@ -125,6 +143,18 @@ def _pair(a, b, cx, df):
 
 
 def _col(e, cx, df):
+    if cx.reuse and e[0] not in (COL, LIT):
+        key = repr(e)
+        if key in cx.cache and cx.coin(0.7):
+            cx.reused += 1
+            return cx.cache[key]
+        c = _col_new(e, cx, df)
+        cx.cache[key] = c
+        return c
+    return _col_new(e, cx, df)
+
+
+def _col_new(e, cx, df):
     from pysparkling.sql import functions as F
     t = e[0]
     if t == COL:
@@ -182,6 +212,11 @@ def _sort_key(k, cx, df):
     """a sort key: plain name / Column, or wrapped by the Column method or the function of the same name"""
     from pysparkling.sql import functions as F
     e, d = k
+    if cx.reuse and d != PLAIN:
+        key = 'sortkey' + repr(k)
+        if key not in cx.cache or not cx.coin(0.7):
+            cx.cache[key] = getattr(_col(e, cx, df), _WRAP_METHOD[d])()
+        return cx.cache[key]
     if d == PLAIN:
         return e[1] if e[0] == COL and cx.coin() else _col(e, cx, df)
     if e[0] == COL and cx.coin(0.3):
@@ -620,9 +655,38 @@ STR_DOM = ['', 'a', 'b', 'ab', 'A', 'aa', 'z', 'é', 'b c']
 NAMES = ['a', 'b', 'c', 'x', 'y', 's', 't', 'p', 'q', 'u', 'v', 'w', 'k', 'm', 'n']
 
 
+def _expr_cols(e, acc=None):
+    """names of the columns an expression refers to"""
+    acc = set() if acc is None else acc
+    if isinstance(e, tuple) and e and e[0] == COL:
+        acc.add(e[1])
+    elif isinstance(e, tuple) and e and e[0] == LIT:
+        pass
+    elif isinstance(e, (tuple, list)):
+        for x in e:
+            if isinstance(x, (tuple, list)):
+                _expr_cols(x, acc)
+    return acc
+
+
 class Gen:
     def __init__(self, rng):
         self.rng = rng
+        self.pool = []          # (expression, type, {column: type}) generated earlier in the current case
+
+    def top(self, env, ty, depth):
+        """an expression for an operator argument: sometimes one used in an earlier step of the same chain
+        (still well typed in the current frame) -- the harness may then hand over the very same object"""
+        r = self.rng
+        envd = dict(env)
+        old = [e for e, t, cols in self.pool if t == ty and all(envd.get(n) == ct for n, ct in cols.items())]
+        if old and r.random() < 0.35:
+            return r.choice(old)
+        e = self.expr(env, ty, depth)
+        cols = {n: envd[n] for n in _expr_cols(e) if n in envd}
+        if cols:
+            self.pool.append((e, ty, cols))
+        return e
 
     def value(self, ty, null_p=0.25, small=True):
         r = self.rng
@@ -764,21 +828,21 @@ class Gen:
                     t = r.choice('idsb')
                     while n in [x for x, _ in nenv]:
                         n = r.choice(NAMES)
-                    items.append((ALIAS, self.expr(env, t, depth), n))
+                    items.append((ALIAS, self.top(env, t, depth), n))
                     nenv.append((n, t))
             if len({n for n, _ in nenv}) != len(nenv):
                 return None
             return (SELECT, items), nenv
         if c == 'filter':
-            return (FILTER, self.expr(env, 'b', depth)), env
+            return (FILTER, self.top(env, 'b', depth)), env
         if c == 'withColumn':
             n = self.fresh(env)[0]
             t = r.choice('idsb')
-            return (WITHCOL, n, self.expr(env, t, depth)), env + [(n, t)]
+            return (WITHCOL, n, self.top(env, t, depth)), env + [(n, t)]
         if c == 'withColumnReplace':
             i = r.randrange(len(env))
             t = r.choice('idsb')
-            return (WITHCOL, env[i][0], self.expr(env, t, depth)), env[:i] + [(env[i][0], t)] + env[i + 1:]
+            return (WITHCOL, env[i][0], self.top(env, t, depth)), env[:i] + [(env[i][0], t)] + env[i + 1:]
         if c == 'drop':
             if len(env) < 2:
                 return None
@@ -796,20 +860,42 @@ class Gen:
             return (TODF, ns), [(n, t) for n, (_, t) in zip(ns, env)]
         if c in ('union', 'unionByName'):
             env2 = list(zip(t2[0], t2[1]))
+            if c == 'union' and [t for _, t in env] == [t for _, t in env2] and r.random() < 0.5:
+                return (UNION, []), env                       # the second table as it is, whatever its names
+            if c == 'unionByName' and sorted(env) == sorted(env2) and r.random() < 0.5:
+                return (UNIONBYNAME, []), env
             other = []
             if r.random() < 0.3:
-                other.append((FILTER, self.expr(env2, 'b', min(depth, 2))))
+                other.append((FILTER, self.top(env2, 'b', min(depth, 2))))
             order = list(range(len(env)))
+            names = [n for n, _ in env]
             if c == 'unionByName':
                 r.shuffle(order)
+                out_names = [names[i] for i in order]
+            else:
+                # UNION is positional: the names of the second operand do not matter -- the same names in
+                # another order, partially overlapping names, or unrelated names
+                mode = r.random()
+                if mode < 0.3:
+                    out_names = list(names)
+                elif mode < 0.65:
+                    out_names = list(names)
+                    r.shuffle(out_names)
+                elif mode < 0.85:
+                    out_names = list(names)
+                    r.shuffle(out_names)
+                    fresh = self.fresh(env, len(names))
+                    out_names = [n if r.random() < 0.5 else f for n, f in zip(out_names, fresh)]
+                else:
+                    out_names = self.fresh(env, len(names))
             items = []
-            for i in order:
-                n, t = env[i]
+            for i, n in zip(order, out_names):
+                _, t = env[i]
                 same = [m for m, tt in env2 if tt == t]
                 if same and r.random() < 0.6:
                     items.append((ALIAS, (COL, r.choice(same)), n))
                 else:
-                    items.append((ALIAS, self.expr(env2, t, min(depth, 2)), n))
+                    items.append((ALIAS, self.top(env2, t, min(depth, 2)), n))
             other.append((SELECT, items))
             if r.random() < 0.15:
                 other.append((DISTINCT,))
@@ -827,7 +913,7 @@ class Gen:
                 if r.random() < 0.7:
                     e = (COL, r.choice(env)[0])
                 else:
-                    e = self.expr(env, r.choice('idsb'), min(depth, 2))
+                    e = self.top(env, r.choice('idsb'), min(depth, 2))
                 ks.append((e, r.randrange(7)))
             return (SORT, ks, self.asc_arg(len(ks))), env
         if c == 'limit':
@@ -836,8 +922,14 @@ class Gen:
 
     def case(self, max_ops=3, depth=3):
         r = self.rng
+        self.pool = []
         t1 = self.table()
         t2 = self.table(types=list(t1[1])) if r.random() < 0.5 else self.table()
+        if t2[1] == t1[1] and r.random() < 0.5:
+            # the second table declares the SAME column names in another order (types stay positional)
+            names2 = list(t1[0])
+            r.shuffle(names2)
+            t2 = (names2, t2[1], t2[2])
         env = list(zip(t1[0], t1[1]))
         ops, unordered = [], False
         n_ops = r.choice([1, 2, 2, 3, 3, 3][:max_ops * 2])
@@ -850,7 +942,15 @@ class Gen:
             o, env = got
             ops.append(o)
             unordered = unordered or op_unordered(o)
-        return (t1, t2, ops, r.randrange(1, 1 << 30) if r.random() < 0.75 else 0)
+        return (t1, t2, ops, self.conv_seed())
+
+    def conv_seed(self):
+        r = self.rng
+        c = r.random()
+        if c < 0.2:
+            return 0
+        k = r.randrange(1, 1 << 28)
+        return 3 * k if c < 0.55 else 3 * k + r.choice([1, 2])
 
 
 def _has_negative_zero(rows):
@@ -934,6 +1034,77 @@ def exhaustive_cases(rng):
     return cases
 
 
+def reuse_cases():
+    """the same Column / expression object in several steps of one chain while the column changes its position
+    in between (drop / select / withColumn / toDF / rename before the second use), and in both operands of a
+    union whose tables order their columns differently; conv seeds divisible by 3 = object reuse"""
+    import itertools
+    t = (['a', 'b', 'c'], 'iii', [[(1, 2, 3), (5, 0, 1)], [(None, 4, 2), (2, 2, 2), (3, None, 0)]])
+    t2 = (['c', 'a', 'b'], 'iii', [[(7, 8, 9)], [(0, 1, 2), (2, None, 5)]])
+    b, c_ = (COL, 'b'), (COL, 'c')
+    pred = (CMP, GT, b, (LIT, 1))
+    summ = (ARITH, ADD, b, c_)
+    movers = [
+        [(DROP, ['a'])],
+        [(SELECT, [(COL, 'c'), (COL, 'b'), (COL, 'a')])],
+        [(SELECT, [(ALIAS, (LIT, 0), 'z'), (COL, 'a'), (COL, 'c'), (COL, 'b')])],
+        [(WITHCOL, 'a', (COL, 'c')), (DROP, ['c']), (RENAME, 'a', 'c'), (SELECT, [(COL, 'c'), (COL, 'b')])],
+        [(TODF, ['b', 'c', 'a'])],
+        [(RENAME, 'a', 'k'), (DROP, ['k'])],
+    ]
+    uses = [
+        lambda: (FILTER, pred),
+        lambda: (WITHCOL, 's', summ),
+        lambda: (SORT, [(summ, DESC_NF), (b, ASC_NL)], [True, False]),
+        lambda: (SELECT, [(ALIAS, summ, 's'), (COL, 'b'), (ALIAS, (COALESCE, [c_, b]), 'c')]),
+    ]
+    cases = []
+    seed = 3
+    for mv in movers:
+        for u1, u2 in itertools.product(range(len(uses)), repeat=2):
+            if u1 == 3:
+                continue                      # the select use replaces the schema: only as the last step
+            mv2 = [(TODF, o[1] + ['s']) if o[0] == TODF and u1 == 1 else o for o in mv]
+            ops = [uses[u1]()] + mv2 + [uses[u2]()]
+            for sd in (seed, 0):
+                cases.append((t, t2, ops, sd))
+            seed += 3
+    # the same predicate / projection on both operands of a union whose tables order the columns differently
+    for kind_ in (UNION, UNIONBYNAME):
+        sel = [(ALIAS, (COL, 'a'), 'a'), (ALIAS, b, 'b'), (ALIAS, summ, 'c')]
+        cases.append((t, t2, [(FILTER, pred), (SELECT, sel), (kind_, [(FILTER, pred), (SELECT, sel)]), (FILTER, pred)], seed))
+        seed += 3
+    return cases
+
+
+def union_cases():
+    """UNION is positional, UNION BY NAME is by name: every order of the same three names on the right-hand side,
+    partially overlapping and unrelated names, produced by the declaration of the second table, by select, by toDF
+    and by withColumnRenamed"""
+    import itertools
+    left = (['a', 'b', 'c'], 'iii', [[(1, 2, 3)], [(4, None, 6)]])
+    rows2 = [[(10, 20, 30), (None, 21, 31)], [(12, 22, None)]]
+    cases = []
+    seed = 1
+    for perm in itertools.permutations(['a', 'b', 'c']):
+        right = (list(perm), 'iii', rows2)
+        for kind_ in (UNION, UNIONBYNAME):
+            cases.append((left, right, [(kind_, [])], 0))
+            cases.append((left, right, [(kind_, [(SELECT, [(COL, n) for n in perm[::-1]])]), (SORT, [((COL, 'a'), ASC_NL)], None)], seed))
+            seed += 1
+        plain = (['p', 'q', 'r'], 'iii', rows2)
+        cases.append((left, plain, [(UNION, [(TODF, list(perm))])], seed))
+        cases.append((left, plain, [(UNION, [(RENAME, 'p', perm[0]), (RENAME, 'q', perm[1]), (RENAME, 'r', perm[2])])], seed + 1))
+        cases.append((left, plain, [(UNIONBYNAME, [(TODF, list(perm))])], seed + 2))
+        seed += 3
+    for names in (['a', 'x', 'b'], ['c', 'b', 'y'], ['x', 'y', 'z'], ['b', 'a', 'z']):
+        cases.append((left, (names, 'iii', rows2), [(UNION, []), (DISTINCT,)], seed))
+        cases.append((left, left, [(UNION, [(SELECT, [(ALIAS, (COL, 'c'), names[0]), (ALIAS, (COL, 'a'), names[1]),
+                                                       (ALIAS, (COL, 'b'), names[2])])])], seed + 1))
+        seed += 2
+    return cases
+
+
 ASC_SCALARS = [None, True, False, 1, 0]
 
 
@@ -1006,7 +1177,7 @@ def generate(rng, tier):
             continue
         light.append(c)
     # the exhaustive cases are large (81 rows x ~17 expressions): spread them over the shards
-    cases = list(_corpus()) + dynamic_cases() + conv
+    cases = list(_corpus()) + dynamic_cases() + conv + reuse_cases() + union_cases()
     step = max(1, len(light) // (len(heavy) + 1))
     for i, c in enumerate(light):
         if i % step == 0 and heavy:
